@@ -458,6 +458,9 @@ func c18Run(c *fw.Case, part, parts int) {
 	}
 	c.Class(fmt.Sprintf("part %d/%d", part, parts))
 	c.Distinct("part", fmt.Sprintf("%d:%d", part, count))
+	ex := []*configapi.PathValue{{Path: "/c/l[k=1]/v", Value: *configapi.NewTypedValueString("3")}, {Path: "/c/l[k=10]/v", Value: *configapi.NewTypedValueString("4")}, {Path: "/c/l[k=1]", Deleted: true}}
+	doc, _ := treev2.BuildTree(ex, true)
+	c.Sample(map[string]interface{}{"sets_enumerated": count, "example_set": "/c/l[k=1]/v=3 /c/l[k=10]/v=4 -/c/l[k=1]", "example_document": string(doc)})
 }
 
 func init() {
